@@ -151,6 +151,21 @@ pub fn gen(tier: &str, rng: &mut Rng, emit: &mut dyn FnMut(String)) {
             }
         });
     }
+    // texts beyond the small scope pushed / replaced / popped at both ends, next to escaped neighbours
+    for s in boundary_texts(tier) {
+        let x = hex(s.as_bytes());
+        emit(format!("buf {} pb:{x} pf:{x} of ob", hex(b"/~0/~1")));
+        emit(format!("buf {} rp:1:{x} rp:2:{x} ob of of", hex(b"/a~1b/c~0/d")));
+        emit(format!("buf {} pf:{x} rp:1:{} rp:2:{} ob ob", hex(b"/k/l"), hex(b"y"), hex(b"z")));
+    }
+    for n in MANY {
+        let p: String = (0..n).map(|i| format!("/t~0{}", i % 3)).collect();
+        for i in [0, 1, n / 2, n - 1, n, usize::MAX] {
+            emit(format!("buf {} rp:{i}:{} ob of", hex(p.as_bytes()), hex(b"w/~")));
+        }
+        emit(format!("buf {} {}", hex(p.as_bytes()), vec!["ob"; n.min(70) + 1].join(" ")));
+        emit(format!("buf {} {}", hex(p.as_bytes()), vec!["of"; n.min(70) + 1].join(" ")));
+    }
     let n = if tier == "thorough" { 200_000 } else { 5_000 };
     for it in 0..n {
         let long = it % 50 == 0;
